@@ -558,6 +558,9 @@ class MessageManager(ClientLike):
             )
         )
 
+        # Subscribers that could not be given the message (connection error, or None if not ready)
+        undelivered: List[Tuple[Module, Union[ConnectionError, None]]] = []
+
         for n in range(len(subscribers)):
             module = subscribers[n]
             if module.conn in self.wlist:
@@ -570,12 +573,7 @@ class MessageManager(ClientLike):
                         module.send_message(header, data)
                         module.drops = 0
                 except ConnectionError as err:
-                    self.remove_module(module)
-                    self.logger.error(
-                        f"Connection Error on write to {module!s} - {err!s}"
-                    )
-                    print("x", end="", flush=True)
-                    self.send_failed_message(module, header, time.perf_counter())
+                    undelivered.append((module, err))
             elif module.is_logger:
                 # Block until logger is ready
                 select.select([], [module.conn], [], None)
@@ -584,20 +582,26 @@ class MessageManager(ClientLike):
                     module.send_message(header, data)
                     module.drops = 0
                 except ConnectionError as err:
-                    self.remove_module(module)
-                    self.logger.error(
-                        f"Connection Error on write to {module!s} - {err!s}"
-                    )
-                    print("x", end="", flush=True)
-                    # this could result in infinite recursion,
-                    # this is prevented by send_failed_message returning if
-                    # failed message type is failed_message.
-                    self.send_failed_message(module, header, time.perf_counter())
+                    undelivered.append((module, err))
 
             else:
                 module.drops += 1
-                print("x", end="", flush=True)
-                self.send_failed_message(module, header, time.perf_counter())
+                undelivered.append((module, None))
+
+        # Failures are reported only after every subscriber has been served: removing a
+        # module or sending a notice delivers further messages (CLIENT_CLOSED, FAILED_MESSAGE,
+        # log messages), which must not overtake this one for the subscribers not yet served,
+        # and must not remove other subscribers while they are being iterated over.
+        for module, err in undelivered:
+            if err is not None:
+                if self.modules.get(module.conn) is module:
+                    self.remove_module(module)
+                self.logger.error(f"Connection Error on write to {module!s} - {err!s}")
+            print("x", end="", flush=True)
+            # this could result in infinite recursion,
+            # this is prevented by send_failed_message returning if
+            # failed message type is failed_message.
+            self.send_failed_message(module, header, time.perf_counter())
 
     def send_to_loggers(
         self,
